@@ -13,7 +13,8 @@ import (
 
 // C19: the real apply path (KVNode.applyEntry → isAlreadyApplied / postprocessRemoteApply, snapshot
 // restore of the synced positions) around a recording state machine, vs the Lean receiver model.
-//   reset | ent <cluster> <term> <index> normal|ignored | set <cluster> <term> <index> | snap | restore | pos <cluster> | data
+//
+//	reset | ent <cluster> <term> <index> normal|ignored | set <cluster> <term> <index> | snap | restore | pos <cluster> | data
 func init() { register(&Proto{Name: "sync", Gen: genSync, New: newSync}) }
 
 type recSM struct {
@@ -36,8 +37,10 @@ func (s *recSM) ApplyRaftRequest(isReplaying bool, b node.IBatchOperator, req no
 func (s *recSM) ApplyRaftConfRequest(req raftpb.ConfChange, term uint64, index uint64, stop chan struct{}) error {
 	return nil
 }
-func (s *recSM) GetSnapshot(term uint64, index uint64) (*node.KVSnapInfo, error) { return &node.KVSnapInfo{}, nil }
-func (s *recSM) UpdateSnapshotState(term uint64, index uint64)                    {}
+func (s *recSM) GetSnapshot(term uint64, index uint64) (*node.KVSnapInfo, error) {
+	return &node.KVSnapInfo{}, nil
+}
+func (s *recSM) UpdateSnapshotState(term uint64, index uint64) {}
 func (s *recSM) PrepareSnapshot(raftSnapshot raftpb.Snapshot, stop chan struct{}) error {
 	return nil
 }
@@ -45,12 +48,12 @@ func (s *recSM) RestoreFromSnapshot(raftSnapshot raftpb.Snapshot, stop chan stru
 	s.data = append([]string{}, s.snap...)
 	return nil
 }
-func (s *recSM) Destroy()                                  {}
-func (s *recSM) CleanData() error                          { return nil }
-func (s *recSM) Optimize(string)                           {}
-func (s *recSM) OptimizeExpire()                           {}
-func (s *recSM) OptimizeAnyRange(node.CompactAPIRange)     {}
-func (s *recSM) DisableOptimize(bool)                      {}
+func (s *recSM) Destroy()                              {}
+func (s *recSM) CleanData() error                      { return nil }
+func (s *recSM) Optimize(string)                       {}
+func (s *recSM) OptimizeExpire()                       {}
+func (s *recSM) OptimizeAnyRange(node.CompactAPIRange) {}
+func (s *recSM) DisableOptimize(bool)                  {}
 func (s *recSM) GetStats(table string, needDetail bool) metric.NamespaceStats {
 	return metric.NamespaceStats{}
 }
@@ -69,8 +72,8 @@ func genSync(rng *rand.Rand, tier string, emit func(string)) {
 		emit("reset")
 		nc := 1 + rng.Intn(2)
 		// the source logs: per cluster a term per index, weakly increasing
-		next := make([]int, nc)  // sender's resume point
-		high := make([]int, nc)  // highest index ever sent
+		next := make([]int, nc) // sender's resume point
+		high := make([]int, nc) // highest index ever sent
 		terms := make([][]int, nc)
 		for c := range terms {
 			t := 1
